@@ -58,6 +58,24 @@ type c18Live struct {
 	p       mast.Persist
 	fs      *fakeS3
 	cleanup func()
+	// every slice a Load of this history returned (kept, not copied): the caller owns what Load returns, so
+	// later calls on the backend must leave those bytes alone
+	held []c18Held
+}
+
+type c18Held struct {
+	n int
+	b []byte
+}
+
+// heldIntact checks every slice returned by an earlier Load of the history against what was stored.
+func (l *c18Live) heldIntact(payloads [][]byte) (int, bool) {
+	for _, h := range l.held {
+		if !bytes.Equal(h.b, payloads[h.n]) {
+			return h.n, false
+		}
+	}
+	return 0, true
 }
 
 // step executes one call on the live backend, updates the model and judges the result.
@@ -117,6 +135,8 @@ func c18Step(b backend, l *c18Live, m *c18Model, op c18Op, payloads [][]byte) (f
 			bad("load-failed", "a stored name does not load", err.Error())
 		case !wantErr && !bytes.Equal(got, payloads[op.N]):
 			bad("load-returns-other-bytes", "a stored name loads with other bytes than were stored", fmt.Sprintf("%d bytes, want %d", len(got), len(payloads[op.N])))
+		case !wantErr:
+			l.held = append(l.held, c18Held{op.N, got})
 		}
 		if l.fs != nil {
 			if got := l.fs.calls[ncalls:]; len(got) != 1 || got[0] != "GET "+b.bucket+" "+b.prefix+name {
@@ -126,6 +146,9 @@ func c18Step(b backend, l *c18Live, m *c18Model, op c18Op, payloads [][]byte) (f
 	}
 	if l.fs != nil {
 		l.fs.failAt, l.fs.bodyFail = nil, nil
+	}
+	if n, ok := l.heldIntact(payloads); !ok {
+		bad("bytes-returned-by-an-earlier-load-changed", "the bytes an earlier Load returned were modified by a later call on the backend", "name "+c18BfsNames[n])
 	}
 	return findings
 }
@@ -142,7 +165,20 @@ func c18Observe(b backend, l *c18Live, m *c18Model, payloads [][]byte) (findings
 			bad("state-stored-name-not-loadable", "a name whose Store succeeded earlier in the history does not load with its bytes", fmt.Sprintf("%s: err %v, %d bytes", n, err, len(got)))
 		case !m.stored[i] && err == nil:
 			bad("state-unstored-name-loads", "a name without a successful Store loads without error", fmt.Sprintf("%s: %d bytes", n, len(got)))
+		case m.stored[i]:
+			l.held = append(l.held, c18Held{i, got})
 		}
+	}
+	// twice over, so that every held slice has seen a later Load of every name
+	for i, n := range c18BfsNames {
+		if m.stored[i] {
+			if got, err := l.p.Load(ctx, n); err == nil && bytes.Equal(got, payloads[i]) {
+				l.held = append(l.held, c18Held{i, got})
+			}
+		}
+	}
+	if n, ok := l.heldIntact(payloads); !ok {
+		bad("bytes-returned-by-an-earlier-load-changed", "the bytes an earlier Load returned were modified by a later call on the backend", "name "+c18BfsNames[n])
 	}
 	if l.fs != nil {
 		want := map[string]bool{}
@@ -194,7 +230,7 @@ func c18Bfs(run *report.Run, acc *pairAcc, tmpBase string) {
 		ops := c18BfsOps(b)
 		replay := func(hist []c18Op) (*c18Live, *c18Model, [][]explore.Finding) {
 			p, fs, cleanup := b.mk()
-			l := &c18Live{p, fs, cleanup}
+			l := &c18Live{p: p, fs: fs, cleanup: cleanup}
 			m := &c18Model{}
 			var fss [][]explore.Finding
 			for _, op := range hist {
